@@ -1,12 +1,34 @@
-(* C11 — serialization round trips.  Statements only; proofs in Cao.SerdeProofs.
-   Proved: the two hand-written map (de)serializers (the label / variable / trace tables of a
-   compiled program) round-trip for every size, size hint and requested capacity.  The
-   derive-generated serde code and the format crates are treated as an identity on the serde data
-   model (trusted, exercised by the correspondence run). *)
-From Coq Require Import Arith NArith List Bool.
+(* C11 - serialization round trips.  Statements only; proofs in Cao.SerdeProofs and Cao.OwnedProofs.
+   Proved:
+   * the two hand-written map (de)serializers (the label / variable / trace tables of a compiled program)
+     round-trip for every size, size hint and requested capacity (C11_hash_map_roundtrip,
+     C11_handle_table_roundtrip);
+   * the OwnedValue conversions (model Cao.Owned of `impl TryFrom<Value> for OwnedValue` and `Vm::insert_value`
+     over the heap of the VM model Cao.Vm, generic in the floating point instance):
+       C11_owned_roundtrip      insert_value then try_from is the identity on every owned value of the class
+                                [owned_ok] (every table: keys are nil / integer / string / a real that is == to
+                                itself, and no key is matched by an earlier key under the VM's key test; values
+                                arbitrary, any nesting), entry order included, into ANY heap, and the heap that
+                                existed is a prefix of the new one; fuel > nesting depth suffices for try_from;
+       C11_value_roundtrip      a value of a heap whose tables satisfy the C07 invariant ([tables_wf], kept by
+                                every instruction: the C07_vm theorems), converted with try_from and inserted into any other
+                                heap, has the same owned form and the same canonical tree (Vm.to_tree) there;
+       C11_owned_fuel           try_from answers [o] only with fuel > odepth o, and then with every such fuel;
+       C11_owned_fuel_stable    whatever try_from answers with some fuel (a value, Err(v), a dangling address, a
+                                key test that does not answer) it answers with every larger fuel: the fuel of
+                                the model is not observable except as "not enough";
+       C11_insert_keeps_tables  insert_value keeps the C07 table invariant of the heap and never reaches the
+                                impossible branch [IUb];
+       C11_nan_key_row_lost     why NaN keys are outside the class: the row is stored and never read back.
+   Not covered: tables used as keys (outside the key domain of the VM model's table theory, C07); the
+   derive-generated serde code and the format crates, treated as an identity on the serde data model (trusted,
+   exercised by the correspondence run); allocation failure / garbage collection during insert_value (the VM
+   model's heap never frees and never fills). *)
+From Coq Require Import Arith NArith ZArith List Bool.
 Import ListNotations.
 From Cao Require Import Bits ProbeDefs HashMap HashMapProofs HashMapConsts HashMapInst
      HandleTable HandleTableProofs HandleTableConsts HandleTableInst Serde SerdeProofs.
+From Cao Require Vm VmFloat VmTableProofs VmTableKeys Owned OwnedProofs.
 
 Theorem C11_hash_map_roundtrip :
   forall (K V : Type) (keqb : K -> K -> bool) (hashfn : K -> N),
@@ -38,3 +60,114 @@ Example C11_nonvacuous :
   | _ => False
   end.
 Proof. vm_compute. auto. Qed.
+
+(* ---------------------------------------------------------------------------------------------- *)
+(* OwnedValue::try_from / Vm::insert_value                                                        *)
+(* ---------------------------------------------------------------------------------------------- *)
+Section C11_owned.
+Import Vm VmTableProofs VmTableKeys Owned.
+
+Theorem C11_owned_roundtrip :
+  forall (F : fops) (o : owned) (h : heap),
+    owned_ok F o = true ->
+    exists h' v,
+      insert_owned F h o = IOk h' v /\ (exists ext, h' = h ++ ext) /\
+      forall fuel, odepth o < fuel -> owned_of F fuel h' v = CvOk o.
+Proof. exact OwnedProofs.owned_roundtrip. Qed.
+Print Assumptions C11_owned_roundtrip.
+
+Theorem C11_value_roundtrip :
+  forall (F : fops) (h : heap) (v : value) (fuel : nat) (o : owned) (h2 : heap),
+    tables_wf F h -> owned_of F fuel h v = CvOk o ->
+    exists h2' v2,
+      insert_owned F h2 o = IOk h2' v2 /\ (exists ext, h2' = h2 ++ ext) /\
+      owned_of F fuel h2' v2 = CvOk o /\ to_tree F fuel h2' v2 = to_tree F fuel h v.
+Proof. exact OwnedProofs.value_roundtrip. Qed.
+Print Assumptions C11_value_roundtrip.
+
+Theorem C11_owned_fuel :
+  forall (F : fops) (f1 : nat) (h : heap) (v : value) (o : owned),
+    owned_of F f1 h v = CvOk o ->
+    odepth o < f1 /\ forall f2, odepth o < f2 -> owned_of F f2 h v = CvOk o.
+Proof.
+  intros F f1 h v o H. split; [exact (OwnedProofs.owned_of_depth F f1 h v o H) | exact (OwnedProofs.owned_of_fuel F f1 h v o H)].
+Qed.
+Print Assumptions C11_owned_fuel.
+
+Theorem C11_owned_fuel_stable :
+  forall (F : fops) (h : heap) (v : value) (f1 f2 : nat),
+    f1 <= f2 -> owned_of F f1 h v <> CvFuel -> owned_of F f2 h v = owned_of F f1 h v.
+Proof. intros F h v f1 f2. exact (OwnedProofs.owned_of_stable F h v f1 f2). Qed.
+Print Assumptions C11_owned_fuel_stable.
+
+Theorem C11_insert_keeps_tables :
+  forall (F : fops) (o : owned) (h : heap),
+    owned_ok F o = true ->
+    insert_owned F h o <> IUb /\
+    forall h' v, tables_wf F h -> insert_owned F h o = IOk h' v -> tables_wf F h'.
+Proof.
+  intros F o h Hok. split; [exact (OwnedProofs.insert_owned_no_ub F o h Hok)|].
+  intros h' v W E. exact (OwnedProofs.insert_owned_tables_wf F o h h' v Hok W E).
+Qed.
+Print Assumptions C11_insert_keeps_tables.
+
+Theorem C11_nan_key_row_lost :
+  forall (F : fops) (r : N) (h : heap) (w : Z),
+    f_cmp F r r <> Some Eq ->
+    exists h' v,
+      insert_owned F h (OTable [(OReal r, OInt w)]) = IOk h' v /\
+      forall fuel, owned_of F (S fuel) h' v = CvOk (OTable []).
+Proof. exact OwnedProofs.nan_key_lost. Qed.
+Print Assumptions C11_nan_key_row_lost.
+
+(* a nested table with string, integer, real and nil keys; bytes of "k0", "k1", "x", "a"; 1.5 and -0.0 as bit
+   patterns; inserted into a heap that already holds a string *)
+Definition c11_sample : owned :=
+  OTable [ (OStr [107; 48]%N, OInt 1%Z);
+           (OStr [107; 49]%N,
+              OTable [ (OInt 2%Z, OStr [97]%N);
+                       (OStr [120]%N, OReal 4609434218613702656%N);
+                       (ONil, OTable []);
+                       (OReal 0%N, OTable [(OReal 9223372036854775808%N, ONil)]) ]);
+           (OInt (-1)%Z, ONil) ].
+
+Example C11_owned_nonvacuous :
+  owned_ok VmFloat.flocq_ops c11_sample = true /\ odepth c11_sample = 3 /\
+  match insert_owned VmFloat.flocq_ops [Vm.OStr [1%N]] c11_sample with
+  | IOk h' v =>
+      owned_of VmFloat.flocq_ops 4 h' v = CvOk c11_sample /\
+      owned_of VmFloat.flocq_ops 3 h' v = CvFuel /\
+      firstn 1 h' = [Vm.OStr [1%N]] /\ length h' = 9 /\ v = VObj 1%N
+  | _ => False
+  end.
+Proof. vm_compute. repeat split. Qed.
+
+(* the hypotheses of C11_value_roundtrip on a concrete heap: the heap built by inserting the sample into the
+   empty heap satisfies the table invariant, and try_from answers the sample *)
+Example C11_value_nonvacuous :
+  exists h v, tables_wf VmFloat.flocq_ops h /\ owned_of VmFloat.flocq_ops 4 h v = CvOk c11_sample /\ length h = 8.
+Proof.
+  destruct (insert_owned VmFloat.flocq_ops [] c11_sample) as [h v| |] eqn:E; try (vm_compute in E; discriminate).
+  exists h, v. split.
+  - eapply (OwnedProofs.insert_owned_tables_wf VmFloat.flocq_ops c11_sample [] h v); [reflexivity | | exact E].
+    intros a t H. unfold hget in H. destruct (N.to_nat a); discriminate.
+  - vm_compute in E. inversion E; subst. vm_compute. split; reflexivity.
+Qed.
+
+(* try_from on a table that holds a function: Err(the function value), with any fuel from 2 on; out of fuel
+   with less *)
+Example C11_err_nonvacuous :
+  let h := [Vm.OTable (mkTable [(VInt 1%Z, VInt 2%Z); (VInt 3%Z, VObj 1%N)] [VInt 1%Z; VInt 3%Z]); Vm.OFun 7%N 0%N] in
+  owned_of VmFloat.flocq_ops 2 h (VObj 0%N) = CvErr (VObj 1%N) /\
+  owned_of VmFloat.flocq_ops 9 h (VObj 0%N) = CvErr (VObj 1%N) /\
+  owned_of VmFloat.flocq_ops 1 h (VObj 0%N) = CvFuel.
+Proof. vm_compute. repeat split. Qed.
+
+(* the NaN row on the binary64 instance *)
+Example C11_nan_nonvacuous :
+  match insert_owned VmFloat.flocq_ops [] (OTable [(OReal 9221120237041090560%N, OInt 7%Z); (OInt 1%Z, OInt 8%Z)]) with
+  | IOk h' v => owned_of VmFloat.flocq_ops 2 h' v = CvOk (OTable [(OInt 1%Z, OInt 8%Z)])
+  | _ => False
+  end.
+Proof. vm_compute. reflexivity. Qed.
+End C11_owned.
